@@ -108,16 +108,19 @@ def oracle(case):
         fails.append(("requested_duty", f"condenser duty {Qc}, requested {case['Q']}", None))
     if abs(hp.COP_h - (hp.COP_r + 1.0)) > 1e-9 * max(1.0, hp.COP_h):
         fails.append(("cop_relation", f"COP_h {hp.COP_h} vs COP_r + 1 = {hp.COP_r + 1.0}", no_evap))
+    # blends carried as pseudo-pure fluids (R404A, R407C, R410A, R507A, SES36, Air): the library's two-phase states of
+    # such a fluid are not mutually consistent (bubble and dew line coincide by construction)
+    pseudo = "pseudo_pure_blend_two_phase" if CP.get_fluid_param_string(case["fluid"], "pure") == "false" else None
     if S[1] < S[0] - (1e-4 + 1e-8 * abs(S[0])):          # CoolProp's (p, s) -> h -> (h, p) round trip at eta = 1
-        fails.append(("compression_entropy", f"s1 {S[1]} < s0 {S[0]}", None))
+        fails.append(("compression_entropy", f"s1 {S[1]} < s0 {S[0]}", pseudo))
     if S[3] < S[2] - (1e-4 + 1e-8 * abs(S[2])):
-        fails.append(("throttling_entropy", f"s3 {S[3]} < s2 {S[2]}", None))
+        fails.append(("throttling_entropy", f"s3 {S[3]} < s2 {S[2]}", pseudo))
     if abs(H[3] - H[2]) > 1e-6 * max(1.0, abs(H[2])):
         fails.append(("throttling_isenthalpic", f"h3 {H[3]} vs h2 {H[2]}", None))
     p_e = CP.PropsSI("P", "T", case["Te"] + 273.15, "Q", 1, case["fluid"]); p_c = CP.PropsSI("P", "T", case["Tc"] + 273.15, "Q", 1, case["fluid"])
-    if abs(Pp[0] - p_e) > 1e-6 * p_e or abs(Pp[3] - p_e) > 1e-6 * p_e:
+    if abs(Pp[0] - p_e) > 1e-4 * p_e or abs(Pp[3] - p_e) > 1e-4 * p_e:
         fails.append(("evaporator_pressure", f"p0, p3 = {Pp[0]}, {Pp[3]}; psat(Te) = {p_e}", None))
-    if abs(Pp[1] - p_c) > 1e-6 * p_c or abs(Pp[2] - p_c) > 1e-6 * p_c:
+    if abs(Pp[1] - p_c) > 1e-4 * p_c or abs(Pp[2] - p_c) > 1e-4 * p_c:
         fails.append(("condenser_pressure", f"p1, p2 = {Pp[1]}, {Pp[2]}; psat(Tc) = {p_c}", None))
     # stream sets
     try:
